@@ -89,6 +89,8 @@ fn ref_compress(s: &Setting, data: &[u8], or: &mut CodecOracle) -> Result<Vec<u8
 fn lib_to_ref(kit: &Kit, schema: &Schema, s: &Setting, vals: &[&V], flush_after: &[bool], or: &mut CodecOracle) -> Result<(), String> {
     let mut w = Writer::builder().schema(schema).writer(Vec::new()).codec(s.codec).marker(MARKER).block_size(1 << 30).build().map_err(|e| e.to_string())?;
     w.add_user_metadata("user.key".into(), [0u8, 0xff, 0x80]).map_err(|e| e.to_string())?;
+    // only the prefix "avro." is reserved
+    w.add_user_metadata("avro_tools".into(), b"x").map_err(|e| format!("add_user_metadata(\"avro_tools\"): {e}"))?;
     let mut blocks: Vec<Vec<&V>> = vec![vec![]];
     for (i, v) in vals.iter().enumerate() {
         w.append_value_ref(&to_lib(v, &kit.s, &kit.env)).map_err(|e| format!("append: {e}"))?;
@@ -119,7 +121,7 @@ fn lib_to_ref(kit: &Kit, schema: &Schema, s: &Setting, vals: &[&V], flush_after:
         (name, Some(c)) if c == name.as_bytes() => {}
         (name, other) => return Err(format!("avro.codec is {:?} for codec {name}", other.map(|c| String::from_utf8_lossy(c).into_owned()))),
     }
-    if meta.get("user.key").map(|v| v.as_slice()) != Some(&[0u8, 0xff, 0x80][..]) {
+    if meta.get("user.key").map(|v| v.as_slice()) != Some(&[0u8, 0xff, 0x80][..]) || meta.get("avro_tools").map(|v| v.as_slice()) != Some(&b"x"[..]) {
         return Err("user metadata is not in the header".into());
     }
     if lay.blocks.len() != blocks.len() {
@@ -169,6 +171,11 @@ fn ref_to_lib(kit: &Kit, s: &Setting, vals: &[&V], partition: &[usize], meta_lay
         meta.push(("".into(), b"empty key".to_vec()));
         user.insert("my.key".into(), vec![0, 0xff, 0xfe, 0x80]);
         user.insert("".into(), b"empty key".to_vec());
+        // only the prefix "avro." is reserved: these are ordinary user keys
+        for k in ["avro_tools", "avrodoc", "avro"] {
+            meta.push((k.into(), k.as_bytes().to_vec()));
+            user.insert(k.into(), k.as_bytes().to_vec());
+        }
     }
     let mut file = refocf::write_header(&meta, meta_layout, &MARKER);
     let mut i = 0;
